@@ -20,6 +20,12 @@ CHECKS = {
  "C09": dict(level="model_checking", tech="TLA+ facet spec Retry.tla (server health, selection, probes, list edits) + TLC-generated histories + TLC trace validation",
              text="Server selection (fresh attempts go to the first / a random member of the least-failed class, success restores, failure/timeout demotes, probe copies only to failed servers past their retry delay and never instead of the user's query, list edits keep health of surviving servers and re-order) is part of the explicit TLA+ spec; destination of every transmission and the public server-state callback stream of every generated history are validated by TLC.",
              note="Trusted: TLC, harness. Random draws are existential (a legal draw must exist).", ref="4/C09"),
+ "C05": dict(level="model_checking", tech="TLA+ facet spec Accept.tla + TLC-generated forged/stale packet histories replayed on the real library + TLC trace validation",
+             text="Authenticity of a response (arrived on the query's current connection, from the server's address, current id, exact question with the 0x20 case rule, well-formed echoing cookie) is defined in an explicit TLA+ spec; every datum delivered to a callback (each reply carries a unique marker) and every server-success credit in every generated history (wrong id/name/type/case/source address/cookie, late replies to earlier transmissions, duplicates, UDP/TCP, 0x20, EDNS, IPv6) must trace back to a packet that was authentic when read.",
+             note="Trusted: TLC, harness markers and recording. One genuine deviation of the pinned tree is listed in known_findings.json (late reply on the previous connection accepted). Cookie state-machine clauses are decided by C17's facet.", ref="4/C05"),
+ "C08": dict(level="model_checking", tech="TLA+ facet spec QCache.tla + TLC-generated request/response/time/reconfiguration histories on the real library (virtual time) + TLC trace validation",
+             text="What may be replayed from the cache (key = opcode/RD/CD/type/class/name case-insensitively without trailing dot; NOERROR/NXDOMAIN only, never TC; lifetime = min(max, min TTL or SOA minimum); nothing when max = 0; empty after server-set change or reinit) and the TTL-decrement rule are an explicit TLA+ spec; every request answered without transmission in every generated history must be explained by it, with every TTL seen through the record API and the legacy buffer equal to original minus whole seconds cached.",
+             note="Trusted: TLC, harness, virtual clock. Early eviction is allowed (the property bounds lateness only). addrinfo TTLs are covered through the record API getter they read.", ref="4/C08"),
 }
 NA_REASON = "check not built yet in this round (specification planned in DESIGN.md section 4); not claimed until its machinery exists"
 
